@@ -155,13 +155,33 @@ def run_case(case, R):
     if construct == "assign-spec" and (fmt != "float" or None in (mn, mx, stp)):
         construct = "assign"          # without a declared bound the type's own default would apply; only complete declarations are compared
     svc, ch = make_service(fmt, mn, mx, stp, construct)
-    try:
+
+    def convert():
         if via == "build_update":
             out = svc.build_update({ch.type: v})
             assert len(out) == 1 and out[0][0] == svc.accessory.aid and out[0][1] == ch.iid
-            res = out[0][2]
+            return out[0][2]
+        return check_convert_value(v, ch)
+    try:
+        if case.get("thread"):
+            # callers prepare values on worker threads too (executor jobs): a fresh thread has a fresh decimal context and a fresh contextvars context
+            import threading
+            box = []
+
+            def work():
+                try:
+                    box.append((convert(), None))
+                except BaseException as e:  # noqa: BLE001
+                    box.append((None, e))
+            th = threading.Thread(target=work)
+            th.start()
+            th.join()
+            R.cls("on-worker-thread")
+            if box[0][1] is not None:
+                raise box[0][1]
+            res = box[0][0]
         else:
-            res = check_convert_value(v, ch)
+            res = convert()
         exc = None
     except FormatError as e:
         res, exc = None, e
@@ -328,7 +348,7 @@ def cases(draw):
                                                            "y", "n", "t", "f", "1", "0", "2", "maybe", "", None, "1.0", b"1", float("nan")])))
         return {"fmt": fmt, "v": v, "via": via}
     case = {"fmt": fmt, "via": via, "construct": draw(st.sampled_from(["kwargs", "kwargs", "assign", "assign-spec", "json", "ble-signature", "ble-signature"])),
-            "spec": draw(st.booleans())}
+            "spec": draw(st.booleans()), "thread": draw(st.integers(0, 5)) == 0}
     if fmt == "float":
         mn = draw(st.sampled_from([None, None, 0, 0.0, 1, 10, 10.0, -100, 0.5, -2**31, 7.2, -50.5, 35]))
         stp = draw(st.sampled_from([None, None, 1, 1.0, 2, 5, 10, 0.1, 0.5, 0.01, 0.25, 0.2, 2.5]))
@@ -404,6 +424,8 @@ def enum_grid(tier):
             yield {"fmt": "float", "min": mn, "max": mx, "step": stp, "v": i / 20, "via": "build_update"}
             if i % 7 == 0:
                 yield {"fmt": "float", "min": mn, "max": mx, "step": stp, "v": str(i / 20), "via": "check_convert_value"}
+            if i % 5 == 0:
+                yield {"fmt": "float", "min": mn, "max": mx, "step": stp, "v": i / 20, "via": "build_update", "thread": True}
     # signed ranges the way a Bluetooth accessory declares them
     for mn, mx, stp in [(-90, 90, 1), (-40, 0, 5), (-100, -10, None), (-2**31, 2**31 - 1, None), (-2**31, -1, 7), (-1, 1, 1), (0, 100, 5)]:
         for v in (-2**31, -101, -100, -91, -90, -89, -45, -41, -40, -38, -12, -10, -9, -1, 0, 1, 3, 89, 90, 91, 2**31 - 1, "-30", -30.0):
